@@ -359,18 +359,23 @@ cJSON *set_or_call(const struct peer *p, const cJSON *request, enum type what)
 	char *rendered_message = cJSON_PrintUnformatted(routed_message);
 	if (unlikely(rendered_message == NULL)) {
 		response = create_error_response_from_request(p, request, INTERNAL_ERROR, "reason", "could not render message");
-		goto delete_json;
+		goto render_message_failed;
 	}
 
 	if (unlikely(e->peer->send_message(e->peer, rendered_message,
 	                                   strlen(rendered_message)) != 0)) {
 		response = create_error_response_from_request(p, request, INTERNAL_ERROR, "reason", "could not send routing information");
+		goto send_message_failed;
 	}
 
 	cjet_free(rendered_message);
 	cJSON_Delete(routed_message);
 	return response;
 
+send_message_failed:
+	cjet_free(rendered_message);
+render_message_failed:
+	remove_routing_information(e, routing_request);
 delete_json:
 	cJSON_Delete(routed_message);
 routed_message_creation_failed:
